@@ -141,6 +141,39 @@ fn gen_layout_value(rng: &mut Rng) -> RVal {
 	node(rng, d)
 }
 
+/// A sink that accepts at most `cap` bytes and then fails.
+struct Bounded {
+	buf: String,
+	cap: usize,
+}
+
+impl std::fmt::Write for Bounded {
+	fn write_str(&mut self, s: &str) -> std::fmt::Result {
+		if self.buf.len() + s.len() > self.cap {
+			Err(std::fmt::Error)
+		} else {
+			self.buf.push_str(s);
+			Ok(())
+		}
+	}
+}
+
+/// Prints into a sink that fails after `cap` bytes: the call must return
+/// (Ok iff everything fits), what was written must be a prefix of the real
+/// output, and the failure must leave nothing behind that changes later prints.
+fn print_into_failing_sink(v: &Value, ro: json_syntax::print::Options, full: &str, cap: usize) -> Result<(), String> {
+	use std::fmt::Write;
+	let mut sink = Bounded { buf: String::new(), cap };
+	let r = guard(|| write!(sink, "{}", v.print_with(ro)))?;
+	if r.is_ok() != (full.len() <= cap) {
+		return Err(format!("write! into a sink of {} bytes returned {:?} for an output of {} bytes", cap, r, full.len()));
+	}
+	if !full.starts_with(&sink.buf) {
+		return Err(format!("bytes written before the sink failed are not a prefix of the output: `{}`", show(sink.buf.as_bytes())));
+	}
+	Ok(())
+}
+
 // ---------------------------------------------------------------------------
 // C08
 // ---------------------------------------------------------------------------
@@ -150,6 +183,16 @@ fn c08_one(rep: &mut Report, fam: &str, r: &RVal) {
 	let mut want = String::new();
 	pr::compact(r, &mut want);
 	let v = from_rval(r);
+	// ... nor on a previous print that failed half-way
+	if rep.evaluations % 5 == 1 {
+		let mut o = json_syntax::print::Options::pretty();
+		o.array_limit = Some(json_syntax::print::Limit::Always);
+		o.object_limit = Some(json_syntax::print::Limit::Always);
+		let full = guard(|| v.print_with(o.clone()).to_string()).unwrap_or_default();
+		if let Err(m) = print_into_failing_sink(&v, o, &full, full.len() / 2) {
+			rep.violation("C08:failing-sink", format!("[{}] {}", fam, m), json!({"sub": "compact", "value_compact": want}));
+		}
+	}
 	// compact output must not depend on what was printed before on this thread
 	if rep.evaluations % 3 == 0 {
 		let _ = guard(|| v.pretty_print().to_string());
@@ -158,11 +201,15 @@ fn c08_one(rep: &mut Report, fam: &str, r: &RVal) {
 		o.object_limit = Some(json_syntax::print::Limit::Item(0));
 		let _ = guard(|| v.print_with(o).to_string());
 	}
-	let forms: [(&str, Result<String, String>); 4] = [
+	let forms: [(&str, Result<String, String>); 7] = [
 		("compact_print().to_string()", guard(|| v.compact_print().to_string())),
 		("to_string()", guard(|| v.to_string())),
 		("format!(\"{}\")", guard(|| format!("{}", v))),
 		("String::from(value)", guard(|| String::from(v.clone()))),
+		// formatter flags that plain text ignores must not leak into the document
+		("format!(\"{:#}\")", guard(|| format!("{:#}", v))),
+		("format!(\"{:+}\")", guard(|| format!("{:+}", v))),
+		("format!(\"{:#}\", compact_print())", guard(|| format!("{:#}", v.compact_print()))),
 	];
 	for (name, got) in forms {
 		rep.count("renderings_compared", 1);
@@ -253,6 +300,22 @@ pub fn run_c08(cfg: &Config) -> i32 {
 		rep
 	});
 	total.merge(rep);
+	// values wider than 65,535 printed characters
+	{
+		let mut rep = Report::new();
+		for r in [
+			RVal::Arr((0..40_000).map(|j| RVal::Num((j % 10).to_string())).collect()),
+			RVal::Arr(vec![RVal::Str("s".repeat(70_000)), RVal::Null]),
+			RVal::Obj((0..9_000).map(|j| (format!("key{}", j), RVal::Bool(j % 2 == 0))).collect()),
+			RVal::Arr((0..70).map(|_| RVal::Arr((0..1000).map(|j| RVal::Num(j.to_string())).collect())).collect()),
+			RVal::Arr(vec![RVal::Obj(vec![("\u{e9}".repeat(66_000), RVal::Arr(vec![]))])]),
+		] {
+			c08_one(&mut rep, "wide-values", &r);
+			rep.distinct_by_construction(1);
+		}
+		rep.count("wide_values", 5);
+		total.merge(rep);
+	}
 	// generated nested values
 	let n = cfg.budget(1_000_000, 20_000_000);
 	let shards = 64;
@@ -301,6 +364,17 @@ struct PrintMon {
 impl PrintMon {
 	fn one(&mut self, fam: &str, r: &RVal, v: &Value, o: &POpts) {
 		self.rep.evaluations += 1;
+		if self.rep.evaluations % 7 == 3 {
+			// a print that fails half-way (bounded sink) must not influence the next one
+			if let Ok(full) = print_real(v, o) {
+				let cap = (full.len() * (self.rep.evaluations as usize % 5)) / 5;
+				if let Err(m) = print_into_failing_sink(v, o.to_real(), &full, cap) {
+					let id = if self.c04 { "C04" } else { "C13" };
+					self.rep.violation(format!("{}:failing-sink", id), format!("[{}] {} (value {}, options {})", fam, m, show(doc_of(r).as_bytes()), opts_json(o)), case_json("print", r, o));
+				}
+				self.rep.count("prints_into_failing_sinks", 1);
+			}
+		}
 		let text = match print_real(v, o) {
 			Ok(t) => t,
 			Err(p) => {
@@ -478,7 +552,7 @@ fn run_print(cfg: &Config, id: &'static str) -> i32 {
 		let mut rng = Rng::new(seed).fork(0x9a4 + sh as u64);
 		// long strings
 		let mut l = sh;
-		while l <= 600 {
+		while l <= 2200 {
 			for sp in ["\u{1}", "\"", "\u{e9}", "\u{1f600}"] {
 				let s = format!("{}{}{}", "a".repeat(l), sp, "b".repeat(l % 7));
 				let r = RVal::Obj(vec![(s.clone(), RVal::Arr(vec![RVal::Str(s), RVal::Null]))]);
@@ -508,6 +582,79 @@ fn run_print(cfg: &Config, id: &'static str) -> i32 {
 				}
 			}
 			mon.rep.max("deepest_printed_nesting", depth as u64);
+		}
+		// values wider than 65,535 printed characters (arrays of many items, a long string inside a container, objects of many entries)
+		if sh < 6 {
+			let r = match sh {
+				0 => RVal::Arr((0..40_000).map(|j| RVal::Num((j % 10).to_string())).collect()),
+				1 => RVal::Arr(vec![RVal::Str("s".repeat(70_000)), RVal::Null]),
+				2 => RVal::Obj((0..9_000).map(|j| (format!("key{}", j), RVal::Bool(j % 2 == 0))).collect()),
+				3 => RVal::Obj(vec![("wide".into(), RVal::Arr((0..33_000).map(|_| RVal::Null).collect())), ("k".into(), RVal::Num("1".into()))]),
+				4 => RVal::Arr((0..70).map(|_| RVal::Arr((0..1000).map(|j| RVal::Num(j.to_string())).collect())).collect()),
+				_ => RVal::Arr(vec![RVal::Obj(vec![("\u{e9}".repeat(66_000), RVal::Arr(vec![]))])]),
+			};
+			let v = from_rval(&r);
+			let mut wide_limit = POpts::pretty();
+			wide_limit.array_limit = Some(PLimit::Width(1 << 20));
+			wide_limit.object_limit = Some(PLimit::ItemOrWidth(1 << 20, 1 << 20));
+			for o in [POpts::compact(), POpts::inline(), wide_limit, POpts::pretty()] {
+				mon.one("wide-values", &r, &v, &o);
+				mon.rep.distinct_by_construction(1);
+			}
+			mon.rep.max("widest_printed_value_chars", doc_of(&r).chars().count() as u64);
+		}
+		// nesting of a thousand levels and more (printed and re-read in a thread with a roomy stack:
+		// printing is recursive, only parsing and traversal promise otherwise)
+		if sh >= 10 && sh < 14 {
+			let depth = [1000usize, 1030, 1500, 2000][sh - 10];
+			let c04 = mon.c04;
+			let h = std::thread::Builder::new().stack_size(1 << 28).spawn(move || {
+				let mut m2 = PrintMon {
+					rep: Report::new(),
+					reader: Reader::new(),
+					c04,
+					c13: !c04,
+				};
+				let mut r = RVal::Arr(vec![RVal::Num("1".into()), RVal::Str("x".into())]);
+				for d in 0..depth {
+					r = if d % 3 == 0 { RVal::Obj(vec![("k".into(), r)]) } else { RVal::Arr(vec![r]) };
+				}
+				let v = from_rval(&r);
+				let mut o = POpts::pretty();
+				o.indent = PIndent::Spaces(1);
+				o.array_limit = Some(PLimit::Item(0));
+				o.object_limit = Some(PLimit::Item(0));
+				for o in [POpts::compact(), o] {
+					m2.one("very-deep-nesting", &r, &v, &o);
+					m2.rep.distinct_by_construction(1);
+				}
+				m2.rep.max("deepest_printed_nesting", depth as u64);
+				crate::oracle::rfc8259::drop_iter(r);
+				crate::monitor::conv::drop_value_iter(v);
+				m2.rep
+			});
+			match h.ok().and_then(|h| h.join().ok()) {
+				Some(r) => mon.rep.merge(r),
+				None => mon.rep.inconclusive.push("very deep printing thread died (harness stack?)".into()),
+			}
+		}
+		// indentation beyond 65,535 characters on a line: large unit x deep nesting
+		if sh >= 6 && sh < 10 {
+			let depth = [258usize, 260, 300, 270][sh - 6];
+			let mut r = RVal::Num("1".into());
+			for d in 0..depth {
+				r = if (d + sh) % 2 == 0 { RVal::Arr(vec![r]) } else { RVal::Obj(vec![("k".into(), r)]) };
+			}
+			let v = from_rval(&r);
+			for indent in [PIndent::Spaces(255), PIndent::Tabs(255), PIndent::Spaces(250)] {
+				let mut o = POpts::pretty();
+				o.indent = indent;
+				o.array_limit = Some(PLimit::Always);
+				o.object_limit = Some(PLimit::Always);
+				mon.one("huge-indentation", &r, &v, &o);
+				mon.rep.distinct_by_construction(1);
+			}
+			mon.rep.max("largest_indentation_chars", (depth * 255) as u64);
 		}
 		// large spacing values in every field, one at a time and together
 		for big in [31usize, 32, 33, 64, 100, 255, 256] {
